@@ -243,7 +243,23 @@ Qed.
 (* ---------- side-effect-free expressions: no events, result independent of the history ---------- *)
 Definition pure_at (en : env) (e : expr) : Prop := exists r : option outcome, forall h, evalS en e h = lift r h.
 
-Lemma side_effect_free_pure en : forall e, side_effect_free e = true -> pure_at en e.
+(* no opaque call anywhere: the common core of the purity notions of the tools *)
+Fixpoint no_opaque (e : expr) : bool :=
+  match e with
+  | EIdent _ _ | ELit _ _ _ => true
+  | EParen x | EUnary _ x | ESliceAll x => no_opaque x
+  | EBinary _ l r => no_opaque l && no_opaque r
+  | EIndex a i => no_opaque a && no_opaque i
+  | ECall (FPrim _) args => (fix go (l : list expr) : bool := match l with [] => true | x :: r => no_opaque x && go r end) args
+  | ECall (FOpaque _ _) _ => false
+  end.
+Fixpoint no_opaque_list (l : list expr) : bool :=
+  match l with [] => true | x :: r => no_opaque x && no_opaque_list r end.
+Lemma no_opaque_call f args :
+  no_opaque (ECall f args) = match f with FPrim _ => no_opaque_list args | FOpaque _ _ => false end.
+Proof. destruct f; reflexivity. Qed.
+
+Lemma no_opaque_pure en : forall e, no_opaque e = true -> pure_at en e.
 Proof.
   induction e using expr_ind'; intros S.
   - eexists (Some _); intros h; reflexivity.
@@ -291,7 +307,7 @@ Proof.
           try (exists None; intros h; simpl; rewrite H1; reflexivity).
         -- eexists (Some _); intros h; simpl; rewrite H1; reflexivity.
         -- exists None; intros h; simpl; rewrite H1; simpl; rewrite H2; reflexivity.
-  - rewrite sef_call in S. destruct f as [|p]; [discriminate|]. apply andb_true_iff in S as [_ S].
+  - rewrite no_opaque_call in S. destruct f as [|p]; [discriminate|].
     assert (L : exists rs : option (res (list value)), forall h, evalS_list en args h = match rs with Some x => Some (x, h) | None => None end).
     { induction H as [|x r Hx Hr IH]; simpl in *.
       - exists (Some (RVal [])). reflexivity.
@@ -321,6 +337,31 @@ Proof.
     + exists (Some RPanic). intros h. simpl. rewrite Hr. reflexivity.
     + exists None. intros h. simpl. rewrite Hr. reflexivity.
 Qed.
+
+
+Lemma sef_no_opaque : forall e, side_effect_free e = true -> no_opaque e = true.
+Proof.
+  induction e using expr_ind'; simpl; intros S; auto.
+  - apply andb_true_iff in S as [S1 S2]. rewrite IHe1, IHe2; auto.
+  - destruct f as [|p]; [discriminate|]. apply andb_true_iff in S as [_ S].
+    induction H as [|x r Hx Hr IH]; simpl in *; auto. apply andb_true_iff in S as [S1 S2]. rewrite Hx, IH; auto.
+  - apply andb_true_iff in S as [S1 S2]. rewrite IHe1, IHe2; auto.
+Qed.
+
+Fixpoint rg_pure_list (l : list expr) : bool :=
+  match l with [] => true | x :: r => rg_pure x && rg_pure_list r end.
+Lemma rg_pure_no_opaque : forall e, rg_pure e = true -> no_opaque e = true.
+Proof.
+  induction e using expr_ind'; simpl; intros S; auto.
+  - apply andb_true_iff in S as [S1 S2]. rewrite IHe1, IHe2; auto.
+  - destruct f as [|p]; [discriminate|].
+    assert (S' : rg_pure_list args = true) by (destruct p; try discriminate; exact S).
+    clear S. induction H as [|x r Hx Hr IH]; simpl in *; auto. apply andb_true_iff in S' as [S1 S2]. rewrite Hx, IH; auto.
+  - apply andb_true_iff in S as [S1 S2]. rewrite IHe1, IHe2; auto.
+Qed.
+
+Lemma side_effect_free_pure en e : side_effect_free e = true -> pure_at en e.
+Proof. intros S. apply no_opaque_pure. apply sef_no_opaque. exact S. Qed.
 
 (* ---------- decimal literals: strconv.FormatInt output is read back by the Go literal reader ---------- *)
 Lemma strip_us_digits d : strip_us (NilEmpty.string_of_uint d) = NilEmpty.string_of_uint d.
